@@ -580,6 +580,8 @@ func propC19(c *Ctx) {
 
 	rlp := c.Rule("lock-release-on-panic", "a mutex of the library without a deferred release is held only across calls that cannot panic (no dynamic call, no reachable explicit panic): a recovered panic never leaves an object locked", 15)
 	ruleLockReleaseOnPanic(c, rlp)
+	rjn := c.Rule("json-value-nonnil", "no Object-valued function of the json decoder returns a nil Object with a nil error (JSON null is Undefined, also inside arrays and maps)", 5)
+	ruleJSONValueNonNil(c, rjn)
 	rle := c.Rule("loop-err-checked", "the error of a call made inside a loop of the library is tested, returned or handed on inside the loop (not overwritten by the next iteration)", 10)
 	ruleLoopErrChecked(c, rle, l.RepoFuncs(func(p string) bool { return isLibPkg(p) }), 10)
 	rls := c.Rule("loop-stutter", "no loop of the library (builtins, value methods, stdlib modules) has an effect-free cycle on which every loop variable keeps its value: such a loop, once on that path, never ends", 1)
